@@ -211,8 +211,48 @@ func execC05(c *child.Ctx, k baseCase, cj []byte) {
 	}
 }
 
+type rawBaseCase struct {
+	Type int    `json:"type"`
+	Raw  string `json:"raw_frame_prefix"`
+}
+
+// execC05Raw hands a truncated raw frame to the 1005/1006 decoder: it must be
+// rejected with an error.
+func execC05Raw(c *child.Ctx, t int, raw []byte) {
+	cj, _ := json.Marshal(rawBaseCase{Type: t, Raw: hexs(raw)})
+	for _, lvl := range []slog.Level{slog.LevelInfo, slog.LevelDebug} {
+		var err error
+		panicked := ""
+		func() {
+			defer func() {
+				if r := recover(); r != nil {
+					panicked = fmt.Sprint(r)
+				}
+			}()
+			_, _, err = decodeBaseDirect(t, raw, lvl)
+		}()
+		if panicked != "" {
+			c.Violate("panic", fmt.Sprintf("type %d decoder panicked on the first %d bytes of a frame: %s", t, len(raw), panicked), cj)
+			return
+		}
+		if err == nil {
+			c.Violate("bad-message-accepted", fmt.Sprintf("type %d decoder accepted the first %d bytes of a frame", t, len(raw)), cj)
+			return
+		}
+		c.Count("rejections_observed", 1)
+	}
+}
+
 func monC05(c *child.Ctx, replay json.RawMessage) {
 	if replay != nil {
+		if hasKey(replay, "raw_frame_prefix") {
+			var rk rawBaseCase
+			json.Unmarshal(replay, &rk)
+			c.Begin(replay)
+			execC05Raw(c, rk.Type, unhex(rk.Raw))
+			c.Eval(1, true)
+			return
+		}
 		var k baseCase
 		json.Unmarshal(replay, &k)
 		c.Begin(replay)
@@ -260,6 +300,14 @@ func monC05(c *child.Ctx, replay json.RawMessage) {
 				run(baseCase{B: b, TypeField: t, Cut: cut}, true)
 			}
 			c.Count("truncation_lengths_swept", int64(full))
+			// the decoders are also handed the raw frame cut at EVERY byte, including
+			// slices shorter than the leader and CRC: always an error, never a panic
+			whole := ref.Frame(ref.EncodeBase(b, t))
+			for n := 0; n < len(whole); n++ {
+				execC05Raw(c, t, whole[:n])
+				c.Eval(ref.Hash64(whole[:n], []byte{byte(t)}), true)
+			}
+			c.Count("raw_frame_truncations_swept", int64(len(whole)))
 			// every other number in the type field must be an error
 			for tf := 0; tf < 4096; tf++ {
 				if tf == t {
@@ -279,4 +327,13 @@ func monC05(c *child.Ctx, replay json.RawMessage) {
 		b := gen.RandBase(r, t)
 		run(baseCase{B: b, TypeField: t, Cut: -1}, b.X != 0 && b.Y != 0 && b.Z != 0)
 	}
+}
+
+func hasKey(raw json.RawMessage, key string) bool {
+	var m map[string]json.RawMessage
+	if json.Unmarshal(raw, &m) != nil {
+		return false
+	}
+	_, ok := m[key]
+	return ok
 }
